@@ -86,7 +86,7 @@ void WebSocketServer::serve(Socket client)
 			capitalize = !isalnum(name[k]);
 		}
 
-		String value = (c < line.length() - 1) ? line.substring(c + 2) : String();
+		String value = line.substring(c + 1).trimmed(); // the space after the colon is optional
 		headers[cname] = value;
 	}
 
@@ -224,7 +224,7 @@ bool WebSocket::connect(const String& uri, int port)
 			return false;
 		}
 		String name = line.substring(0, c);
-		String value = (c < line.length() - 1) ? line.substring(c + 2) : String();
+		String value = line.substring(c + 1).trimmed(); // the space after the colon is optional
 		headers[name] = value;
 	}
 
